@@ -86,7 +86,13 @@ fn class_map(names: &[&str], xnames: &[&str], perm: &[usize]) -> Vec<(String, St
     m
 }
 
-const PROGRAMS: [&str; 14] = [
+const PROGRAMS: [&str; 17] = [
+    // two clobbered temporaries read by one instruction after a call, in both operand orders
+    "main:\n    li t0, 1\n    li t1, 2\n    jal ra, foo\n    add a0, t0, t1\n    add a1, t1, t0\n    sub a2, t5, t6\n    li a7, 10\n    ecall\nfoo:\n    li a0, 0\n    ret\n",
+    // a function with two labels, called through each of them
+    "main:\n    li a0, 1\n    jal ra, beta\n    mv a1, a0\n    li a0, 2\n    jal ra, alpha\n    add a0, a0, a1\n    li a7, 1\n    ecall\n    li a7, 10\n    ecall\nalpha:\nbeta:\n    addi a0, a0, 1\n    ret\n",
+    // every temporary read after a call
+    "main:\n    jal ra, w\n    add a0, t0, t1\n    add a0, t2, t3\n    add a0, t4, t5\n    add a0, a0, t6\n    li a7, 10\n    ecall\nw:\n    ret\n",
     // clobbers s1 without saving it, reads s0 although nothing was put there
     "main:\n    li   a0, 1\n    jal  ra, foo\n    li   a7, 1\n    ecall\n    li   a7, 10\n    ecall\nfoo:\n    addi s1, a0, 1\n    addi a0, s1, 2\n    add  a0, a0, s0\n    ret\n",
     // correct save / restore of two saved registers
@@ -117,6 +123,8 @@ const PROGRAMS: [&str; 14] = [
     "main:\n    jal ra, r\n    li a7, 10\n    ecall\nr:\n    add a0, s0, s1\n    add a0, a0, s2\n    add a0, a0, s3\n    add a0, a0, s4\n    add a0, a0, s5\n    add a0, a0, s6\n    add a0, a0, s7\n    add a0, a0, s8\n    add a0, a0, s9\n    add a0, a0, s10\n    add a0, a0, s11\n    ret\n",
 ];
 
+pub fn programs() -> Vec<&'static str> { PROGRAMS.to_vec() }
+
 pub fn search(v: &serde_json::Value) -> i32 {
     let mut n = 0u64;
     let only: Option<&str> = v.get("inputs").and_then(|i| i.get("program")).and_then(|s| s.as_str());
@@ -138,9 +146,13 @@ pub fn search(v: &serde_json::Value) -> i32 {
         }
         // label renamings: every label of the program gets a new valid name (injective)
         let labels: Vec<String> = src.split('\n').filter_map(|l| l.trim().strip_suffix(':').map(str::to_string)).collect();
-        for style in 0..3 {
+        for style in 0..5 {
             let map: Vec<(String, String)> = labels.iter().enumerate().map(|(i, l)| (l.clone(), match style {
-                0 => format!("{l}_renamed"), 1 => format!("L{i}"), _ => format!("_{}", labels[(i + 1) % labels.len()].to_uppercase()) })).collect();
+                0 => format!("{l}_renamed"), 1 => format!("L{i}"), 2 => format!("_{}", labels[(i + 1) % labels.len()].to_uppercase()),
+                // names that look like registers or mnemonics in another letter case are ordinary labels
+                3 => ["T1", "FP", "Zero", "S11", "X5", "A0", "Ra", "ADD", "Ret", "Sp"][i % 10].to_string(),
+                // the alphabetical order of the labels is reversed
+                _ => format!("{}{}", ["z", "y", "x", "w", "v", "u", "q", "p", "o", "n"][i % 10], l) })).collect();
             n += 1;
             if let Some(w) = check(src, &map, &format!("the label renaming {map:?}")) { println!("witness: {w}"); return 1; }
         }
@@ -150,6 +162,6 @@ pub fn search(v: &serde_json::Value) -> i32 {
     titles.sort(); titles.dedup();
     if only.is_none() && titles.len() < 5 { println!("error: the program pool produces only {titles:?}"); return 2; }
     println!("diagnostic kinds exercised: {titles:?}");
-    println!("no diagnostic changes among {n} program/renaming pairs ({} programs; every transposition and two longer permutations of t0-t6 and of s0-s11, in ABI and x-number spelling; three renamings of all labels)", progs.len());
+    println!("no diagnostic changes among {n} program/renaming pairs ({} programs; every transposition and two longer permutations of t0-t6 and of s0-s11, in ABI and x-number spelling; five renamings of all labels (suffix, numbered, upper case, register-like names in another case, reversed alphabetical order))", progs.len());
     0
 }
